@@ -137,3 +137,10 @@ claim("C13",
       "finder, which must answer None or two specifications that count their own start class correctly, pass the C02 oracle and are "
       "isomorphic - and never raise.",
       "Trusted: as C01.", "CrossHair symbolic execution (pattern D: solver-enumerated pairs) + z3", "DESIGN.md 2/C13")
+claim("C19",
+      "Bounded symbolic execution: the DFA table is the solver variable (two-state tables, 512 four-state and 1152 five-state tables "
+      "with finite sub-languages), groups = database that produced the original x pack with a pack-offering verification strategy "
+      "(nesting: the offered pack verifies deeper classes; mixed: the same strategy declines a pack for some classes). On every path "
+      "expand_verified() runs for real and the result is checked with the C01 and C02 oracles, for leftover pack-offering verified "
+      "classes, for rule objects shared with the original, and the original is re-checked.",
+      "Trusted: as C01.", "CrossHair symbolic execution (pattern D: solver-enumerated universes) + z3", "DESIGN.md 2/C19")
